@@ -251,6 +251,7 @@ CORE_FAMILIES = ['XPow', 'YPow', 'ZPow', 'HPow', 'CZPow', 'CXPow', 'CYPow', 'Swa
                  'CCZPow', 'CCXPow', 'CCYPow', 'PI', 'Rx', 'Ry', 'Rz', 'MS', 'FSim', 'PhasedFSim', 'PhasedX', 'PhasedXZ',
                  'PhasedISwap', 'Givens', 'CSwap', 'GlobalPhase', 'Diagonal', 'QFT', 'PhaseGrad', 'Matrix', 'Identity', 'Perm',
                  'Ctrl', 'Ctrl']
+FAST = ['XPow', 'YPow', 'ZPow', 'HPow', 'CZPow', 'CXPow', 'SwapPow']
 QUDIT_FAMILIES = ['X4Pow', 'Z4Pow']
 VENDOR_FAMILIES = ['Sycamore', 'GPI', 'GPI2', 'IonqMS', 'IonqZZ']
 
